@@ -258,7 +258,7 @@ class ContractMixin:
         if self.spec_mode:
             # a spec may mention a contracted *pure* function: its result is the uninterpreted image
             flat = [box(v, st) for k_, v in env.items() if v.kind != "pyobj"]
-            f = uf("fn:" + c.qualname, *([V] * len(flat)), V)
+            f = uf("fn:" + (getattr(c, "fn_name", None) or c.qualname), *([V] * len(flat)), V)
             return unbox(c.result, f(*flat) if flat else CONSTS.get("fn", c.qualname), st)
         # ghost lets of the callee contract
         cmod = self.contract_module(c)
@@ -310,7 +310,7 @@ class ContractMixin:
         if getattr(c, "functional", False):
             # deterministic pure function of its arguments: the same uninterpreted image in code and spec
             flat = [box(v, st) for v in env.values() if v.kind != "pyobj"]
-            f = uf("fn:" + c.qualname, *([V] * len(flat)), V)
+            f = uf("fn:" + (getattr(c, "fn_name", None) or c.qualname), *([V] * len(flat)), V)
             t = f(*flat) if flat else CONSTS.get("fn", c.qualname)
             return unbox(c.result, t, st)
         return self.fresh_sym(st, "res_" + c.qualname.split(".")[-1].replace(":", "_"), c.result)
@@ -359,6 +359,9 @@ class ContractMixin:
             return self.apply_contract(c, args, kwargs, st, node, label=q)
         if clsname in ("list", "tuple", "set", "frozenset", "dict", "str", "int", "bool"):
             return self.builtin_construct(clsname, node, st)
+        if clsname == "type" and len(node.args) == 1 and not node.keywords:
+            # type(x): the class object of x, a function of x
+            return S_val(uf("py_type", V, V)(box(self.eval(node.args[0], st), st)))
         self.note_class(clsname)
         args, kwargs = self.eval_args(node, st)
         fields = extract.dataclass_fields(clsname, self.reg.modules) if hit else None
